@@ -407,18 +407,20 @@ def run_chunks(kind, cases, config='py', n=None):
 
 def match_key(key):
     """known-finding keys for the structural conditions named in DESIGN section 8 (F10) and the pos_diag NaN"""
-    if key.endswith(':integer-dtype'):
+    intd = key.endswith(':integer-dtype')
+    base = key[:-len(':integer-dtype')] if intd else key
+    if base.startswith('svd-full:'):
+        what, _, cond = base[len('svd-full:'):].partition(':')
+        if what in ('U-unitary', 'V-unitary') and cond.startswith('missing-blocks'):
+            return F10A
+        if what in ('U-charge-rule', 'VH-charge-rule') and cond.endswith('+qtotal_LR!=0'):
+            return F10B
+    if intd:
         head = key.split(':')[0]
         if head in ('svd', 'svd-full', 'pinv', 'polar'):
             return FINT_SVD
         if head in ('qr', 'lq', 'ortho'):
             return FINT_QR
-    if key.startswith('svd-full:'):
-        what, _, cond = key[len('svd-full:'):].partition(':')
-        if what in ('U-unitary', 'V-unitary') and cond.startswith('missing-blocks'):
-            return F10A
-        if what in ('U-charge-rule', 'VH-charge-rule') and cond.endswith('+qtotal_LR!=0'):
-            return F10B
     if key == 'polar:reconstruct:left:p=a.a^dagger':
         return FPOLAR
     if key == 'speigs:raises:missing-sector-block':
@@ -539,7 +541,7 @@ def forced_cases():
                              'q_as_list': i % 3 == 0, 'pos_diag': i % 2 == 0, 'lq': (i // 2) % 2 == 0, 'cutoff': cut}
                 out['qr'].append(c)
             c = mk(L, R, var, dts[vi % 4])
-            c['opts'] = {'pinv_cutoff': [1e-9, 2.5, None][vi % 3], 'polar_cutoff': POLAR_CUTOFF[(si + vi) % len(POLAR_CUTOFF)], 'inner_labels': [None, ['x', 'y']][vi % 2]}
+            c['opts'] = {'pinv_cutoff': [None, 1e-9, 2.5][vi % 3], 'polar_cutoff': POLAR_CUTOFF[(si + vi) % len(POLAR_CUTOFF)], 'inner_labels': [None, ['x', 'y']][vi % 2]}
             out['pinv'].append(c)
     for k, c0 in enumerate([dict(pipe), dict(pipe, layout='F', shuffle=True)]):
         c = dict({'seed': 910000 + k, 'mods': [1], 'surgery': [], 'shuffle': False, 'layout': 'C', 'dtype': 'f8', 'complex': False}, **c0)
@@ -671,6 +673,17 @@ def coverage_tables(ctx, tags, refl):
     if not LINECOV['executable']:
         holes.append('no line coverage was recorded (sys.monitoring unavailable?)')
     table['lines'] = lines_tab
+    opts = table.get('options', {})
+    table['summary'] = {
+        'covered_functions': len(opts), 'parameters': sum(len(v) for v in opts.values()),
+        'option_classes': sum(len(x) for v in opts.values() for x in v.values() if isinstance(x, dict)),
+        'option_classes_reached': sum(1 for v in opts.values() for x in v.values() if isinstance(x, dict) for n in x.values() if n > 0),
+        'structural_classes': sum(len(v) for v in table.get('structure', {}).values()),
+        'structural_classes_reached': sum(1 for v in table.get('structure', {}).values() for n in v.values() if n > 0),
+        'executable_lines': sum(v['executable'] for v in lines_tab.values()), 'lines_hit': sum(v['hit'] for v in lines_tab.values()),
+        'excluded_public_names': len(table.get('excluded_names', {})),
+        'before_this_audit': {'option_classes_reached': 109, 'structural_classes_reached': 36, 'lines_hit': 367,
+                              'note': 'HEAD version of the check, lines measured with the same tracer (700/700/350/300/300/270 cases)'}}
     ctx.cov['coverage_table'] = table
     ctx.cov['tags'] = {st: dict(sorted(t.items())) for st, t in tags.items()}
     for h in holes[:12]:
@@ -726,7 +739,7 @@ def main(ctx):
             tag = kind + ':' + ','.join(sorted(set(case.get('surgery') or ['plain'])))
             hist[tag] = hist.get(tag, 0) + 1
             ctx.count(kind, case, nontrivial=nontriv, sample={'case': case, 'structure': {k: r[k] for k in ('blocked', 'nums', 'ks', 'U', 'V', 'Q', 'R') if k in r}})
-            if kind == 'svd' and 'U' in r and not case['opts']['full_matrices']:
+            if kind == 'svd' and 'U' in r and not case['opts']['full_matrices'] and not r.get('ambiguous_cutoff'):
                 lits.append(svd_lit(case, r))
                 lit_idx.append(i)
             if kind == 'qr' and 'Q' in r and not any(k is None for k in r['ks']):
